@@ -74,6 +74,9 @@ def check_c15(spec, instr, rec):
         enc = bytes(enc)
         rec.count("%s:cand" % spec.name)
         d, err = ic.decode(spec, enc + b"\0" * 0, 0)
+        if d is None and err == "order_dependent":
+            rec.count("cand_order_dependent_skipped")      # see insn_corpus.x86_order_dependent
+            continue
         if d is None:
             out.append(("enc_undecodable", "candidate %s does not decode (%s)" % (ic.hexs(enc), err), enc))
             continue
@@ -123,6 +126,9 @@ def check_imm_boundaries(spec, instr, rec):
             for enc in vals:
                 enc = bytes(enc)
                 d, err = ic.decode(spec, enc, 0)
+                if d is None and err == "order_dependent":
+                    rec.count("cand_order_dependent_skipped")
+                    continue
                 decoded.append((enc, d, err))
             if not any(d is not None and d.l == len(enc) and ic.same_instr(var, d) for enc, d, err in decoded):
                 rec.count("imm:unconfirmed")
@@ -188,6 +194,9 @@ def check_c16(spec, instr, rec):
         enc = bytes(enc)
         rec.count("%s:cand" % spec.name)
         d, err = ic.decode(spec, enc, 0)
+        if d is None and err == "order_dependent":
+            rec.count("cand_order_dependent_skipped")
+            continue
         if d is None:
             out.append(("enc_undecodable", "encoding %s of the parsed text does not decode (%s)" % (ic.hexs(enc), err), enc))
             continue
